@@ -765,7 +765,17 @@ func c11GenOne(r *Rng, sameSecondFamily bool) string {
 			}
 			continue
 		}
+		stepCS := cs
 		for e := 0; e < edits; e++ {
+			// a changeset takes time, and changesets of different users interleave: edits of one step may be
+			// a few seconds apart and may belong to a second changeset
+			if e > 0 && r.Chance(35) {
+				t += int64(1 + r.Intn(int(thr/2)+3))
+			}
+			cs = stepCS
+			if r.Chance(25) {
+				cs = stepCS + 1000
+			}
 			fid := fids[r.Intn(len(fids))]
 			referenced := false
 			for _, x := range curRefs {
@@ -795,8 +805,26 @@ func c11GenOne(r *Rng, sameSecondFamily bool) string {
 				}
 			}
 		}
+		cs = stepCS
 		if r.Chance(35) {
 			newParent(true)
+			// the same changeset keeps editing children after it uploaded the parent
+			if r.Chance(40) {
+				for k := 0; k < 1+r.Intn(2); k++ {
+					if r.Chance(60) {
+						t += int64(1 + r.Intn(int(thr/2)+3))
+					}
+					if r.Chance(30) {
+						cs = stepCS + 1000
+					} else {
+						cs = stepCS
+					}
+					if len(curRefs) > 0 {
+						addVersion(curRefs[r.Intn(len(curRefs))], true)
+					}
+				}
+				cs = stepCS
+			}
 		}
 	}
 	// pre-annotated references and filters
